@@ -2,7 +2,12 @@
    item list and edit script; the only hypothesis is [no_overflow] (stated where
    used): nodeBuilder.hasCapacity never fails, i.e. no forced size boundary
    *before* an item.  Without it the statement is false in the model
-   ([mutate_level_refuted]) and in the real code (see the C12 report). *)
+   ([mutate_canonical_refuted]) and in the real code (known finding
+   chunker.append:overflow-boundary-not-resynced).
+   Headlines: chunk_resync, mutate_level (one level), apply_levels_spec (all
+   levels, script form), mutate_canonical (all levels, sorted key edits),
+   history_independent, history_canonical / history_independent_fold (whole
+   histories), build_is_tree (the fuel of [build] always suffices). *)
 From Coq Require Import NArith List Bool Lia.
 From Dolt Require Import C12.Model.
 Import ListNotations.
@@ -235,6 +240,557 @@ Section Proofs.
     fst (rechunk l true [] cops1) = fst (rechunk l true [] cops2).
   Proof.
     intros l xs1 xs2 c1 c2 H1 H2 E. rewrite (mutate_level l xs1 c1 H1), (mutate_level l xs2 c2 H2), E. reflexivity.
+  Qed.
+
+
+  (* ======================================================================= *)
+  (* All levels.                                                              *)
+  Notation apply_levels := (apply_levels item boundary fits summ).
+  Notation attach := (Model.attach item).
+  Notation take_n := (Model.take_n item).
+  Notation split_ops := (Model.split_ops item).
+  Notation old_of := (Model.old_of item).
+  Notation new_of := (Model.new_of item).
+
+  Lemma new_of_app : forall a b, new_of (a ++ b) = new_of a ++ new_of b.
+  Proof. intros. unfold Model.new_of. apply flat_map_app. Qed.
+  Lemma old_of_app : forall a b, old_of (a ++ b) = old_of a ++ old_of b.
+  Proof. intros. unfold Model.old_of. apply flat_map_app. Qed.
+
+  Lemma attach_ins : forall (g : chunk -> item) xs E rest,
+    attach E (map (fun c => PIns item (g c)) xs ++ rest) = map (fun c => I (g c)) xs ++ attach E rest.
+  Proof. induction xs as [|x xs IH]; intros; cbn [map app Model.attach]; [reflexivity|]. rewrite IH. reflexivity. Qed.
+
+  Lemma new_of_ins : forall (g : chunk -> item) xs, new_of (map (fun c => I (g c)) xs) = map g xs.
+  Proof. induction xs as [|x xs IH]; [reflexivity|]. cbn [map]. change (new_of (I (g x) :: ?r)) with (g x :: new_of r). rewrite IH. reflexivity. Qed.
+  Lemma old_of_ins : forall (g : chunk -> item) xs, old_of (map (fun c => I (g c)) xs) = [].
+  Proof. induction xs as [|x xs IH]; [reflexivity|]. cbn [map]. change (old_of (I (g x) :: ?r)) with (old_of r). exact IH. Qed.
+
+  (* the parent-script invariant: the script that [rechunk] hands to the next
+     level rewrites the summaries of the old chunks into the summaries of the
+     new chunks *)
+  Lemma rechunk_script : forall l cops synced run cs ps,
+    rechunk l synced run cops = (cs, ps) ->
+    new_of (attach (map (summ l) (map old_of cops)) ps) = map (summ l) cs /\
+    old_of (attach (map (summ l) (map old_of cops)) ps) = map (summ l) (map old_of cops).
+  Proof.
+    intros l cops; induction cops as [|ops rest IH]; intros synced run cs ps H; cbn [Model.rechunk] in H.
+    - inversion H; subst; clear H. cbn [map].
+      rewrite <- (app_nil_r (map _ (finish run))), attach_ins. cbn [Model.attach]. rewrite app_nil_r.
+      rewrite new_of_ins, old_of_ins. split; reflexivity.
+    - destruct (synced && is_nil run && all_keep item ops && negb (is_nil ops)).
+      + destruct (rechunk l true [] rest) as [cs' ps'] eqn:Er. inversion H; subst; clear H.
+        destruct (IH _ _ _ _ Er) as [Hn Ho]. cbn [map Model.attach].
+        change (new_of (K ?x :: ?r)) with (x :: new_of r). change (old_of (K ?x :: ?r)) with (x :: old_of r).
+        rewrite Hn, Ho. split; reflexivity.
+      + destruct (feed l run (Model.new_of item ops)) as [emitted run'] eqn:Ef.
+        destruct (rechunk l (last_is_keep item summ ops && is_nil run') run' rest) as [cs' ps'] eqn:Er.
+        inversion H; subst; clear H. destruct (IH _ _ _ _ Er) as [Hn Ho].
+        cbn [map]. rewrite attach_ins. cbn [Model.attach].
+        rewrite new_of_app, old_of_app, new_of_ins, old_of_ins.
+        change (new_of (D ?x :: ?r)) with (new_of r). change (old_of (D ?x :: ?r)) with (x :: old_of r).
+        rewrite Hn, Ho, map_app. split; reflexivity.
+  Qed.
+
+  Lemma take_n_app : forall os n a b, take_n n os = (a, b) -> os = a ++ b.
+  Proof.
+    induction os as [|o os IH]; intros n a b H; cbn [Model.take_n] in H.
+    - inversion H; reflexivity.
+    - destruct n as [|n']; [inversion H; reflexivity|].
+      destruct (take_n (match o with I _ => S n' | _ => n' end) os) as [a' b'] eqn:E.
+      inversion H; subst. cbn [app]. f_equal. eapply IH; eauto.
+  Qed.
+
+  Lemma take_n_old : forall os n a b c rest,
+    take_n n os = (a, b) -> old_of os = c ++ rest -> length c = n ->
+    old_of a = c /\ old_of b = rest.
+  Proof.
+    induction os as [|o os IH]; intros n a b c rest H Ho Hl; cbn [Model.take_n] in H.
+    - inversion H; subst. cbn in Ho. symmetry in Ho. apply app_eq_nil in Ho as [-> ->]. split; reflexivity.
+    - destruct n as [|n'].
+      + inversion H; subst. destruct c; [|discriminate]. split; [reflexivity|exact Ho].
+      + destruct (take_n (match o with I _ => S n' | _ => n' end) os) as [a' b'] eqn:E.
+        inversion H; subst; clear H. destruct o as [x|x|y].
+        * change (old_of (K x :: os)) with (x :: old_of os) in Ho.
+          destruct c as [|x0 c']; [discriminate|]. cbn [app] in Ho. inversion Ho; subst.
+          cbn [length] in Hl. inversion Hl.
+          destruct (IH _ _ _ c' rest E H1 H0) as [Ha Hb].
+          change (old_of (K x0 :: a')) with (x0 :: old_of a'). rewrite Ha. split; [reflexivity|exact Hb].
+        * change (old_of (D x :: os)) with (x :: old_of os) in Ho.
+          destruct c as [|x0 c']; [discriminate|]. cbn [app] in Ho. inversion Ho; subst.
+          cbn [length] in Hl. inversion Hl.
+          destruct (IH _ _ _ c' rest E H1 H0) as [Ha Hb].
+          change (old_of (D x0 :: a')) with (x0 :: old_of a'). rewrite Ha. split; [reflexivity|exact Hb].
+        * change (old_of (I y :: os)) with (old_of os) in Ho.
+          destruct (IH _ _ _ c rest E Ho Hl) as [Ha Hb].
+          change (old_of (I y :: a')) with (old_of a'). split; assumption.
+  Qed.
+
+  Lemma split_new : forall U os, flat_map new_of (split_ops U os) = new_of os.
+  Proof.
+    induction U as [|c U IH]; intro os; cbn [Model.split_ops].
+    - destruct os; [reflexivity|]. cbn [flat_map]. rewrite app_nil_r. reflexivity.
+    - destruct U as [|c' U'].
+      + cbn [flat_map]. rewrite app_nil_r. reflexivity.
+      + destruct (take_n (length c) os) as [a b] eqn:E. cbn [flat_map]. rewrite IH.
+        rewrite (take_n_app _ _ _ _ E) at 1. rewrite new_of_app. reflexivity.
+  Qed.
+
+  Lemma split_old : forall U os, U <> [] -> old_of os = concat U -> map old_of (split_ops U os) = U.
+  Proof.
+    induction U as [|c U IH]; intros os Hne Ho; [congruence|]. cbn [Model.split_ops].
+    destruct U as [|c' U'].
+    - cbn [concat] in Ho. rewrite app_nil_r in Ho. cbn [map]. rewrite Ho. reflexivity.
+    - destruct (take_n (length c) os) as [a b] eqn:E. cbn [concat] in Ho.
+      destruct (take_n_old _ _ _ _ c _ E Ho eq_refl) as [Ha Hb].
+      cbn [map]. rewrite Ha. f_equal. apply IH; [discriminate|exact Hb].
+  Qed.
+
+  Lemma split_len_top : forall os, (length (split_ops [] os) <= 1)%nat.
+  Proof. intros [|o os]; cbn; lia. Qed.
+
+  (* well-formed old levels (from level l upwards): every level is a canonical
+     chunking, a level has a parent exactly when it has at least two chunks, and
+     the parent's items are the summaries of its chunks *)
+  Fixpoint wf (l : nat) (old : list (list chunk)) : Prop :=
+    match old with
+    | [] => True
+    | L :: up =>
+      canon l L /\
+      match up with
+      | [] => (length L <= 1)%nat
+      | U :: _ => (2 <= length L)%nat /\ concat U = map (summ l) L /\ wf (S l) up
+      end
+    end.
+
+  Lemma canon_single_internal : forall l E, (length E <= 1)%nat -> canon (S l) [E].
+  Proof.
+    intros l [|x [|y E]] H; cbn [canon].
+    - reflexivity.
+    - unfold Model.chunk_from. cbn [Model.feed]. rewrite append1_nf. cbn [app degenerate negb].
+      rewrite andb_false_r. reflexivity.
+    - cbn in H. lia.
+  Qed.
+
+  (* mutate_canonical over all levels, in terms of edit scripts: the incremental
+     path produces, level by level, exactly what building from scratch produces *)
+  Theorem apply_levels_spec : forall f l old cops,
+    wf l (map old_of cops :: tl old) ->
+    apply_levels f l old cops = build_levels f l (flat_map new_of cops).
+  Proof.
+    induction f as [|f IH]; intros l old cops Hwf.
+    - cbn [Model.apply_levels Model.build_levels].
+      destruct (rechunk l true [] cops) as [cs ps] eqn:Er.
+      pose proof (rechunk_gen l cops true [] (fun _ => eq_refl) (proj1 Hwf)) as Hg. rewrite Er in Hg. cbn [fst] in Hg.
+      fold (chunk_level l (flat_map new_of cops)) in Hg. rewrite <- Hg.
+      destruct cs as [|c [|c' cs']]; reflexivity.
+    - cbn [Model.apply_levels Model.build_levels].
+      destruct (rechunk l true [] cops) as [cs ps] eqn:Er.
+      pose proof (rechunk_gen l cops true [] (fun _ => eq_refl) (proj1 Hwf)) as Hg. rewrite Er in Hg. cbn [fst] in Hg.
+      fold (chunk_level l (flat_map new_of cops)) in Hg. rewrite <- Hg.
+      destruct cs as [|c [|c' cs']]; try reflexivity.
+      f_equal.
+      destruct (rechunk_script _ _ _ _ _ _ Er) as [Hn Ho].
+      set (os := attach (map (summ l) (map old_of cops)) ps) in *.
+      rewrite IH; [rewrite split_new, Hn; reflexivity|].
+      destruct Hwf as [Hc Hup]. destruct (tl old) as [|U up] eqn:Et.
+      + (* no old parent level: at most one old chunk here *)
+        cbn [hd tl]. destruct os as [|o os'] eqn:Eos.
+        * cbn [Model.split_ops map wf canon]. split; [exact Logic.I|cbn; lia].
+        * cbn [Model.split_ops map wf]. split; [|cbn; lia].
+          rewrite Ho. apply canon_single_internal. rewrite !map_length in *. exact Hup.
+      + destruct Hup as [H2 [Hcat Hw]]. cbn [hd tl].
+        assert (HU : U <> []).
+        { intro; subst U. cbn in Hcat. symmetry in Hcat. apply map_eq_nil in Hcat. rewrite Hcat in H2. cbn in H2. lia. }
+        rewrite split_old; [exact Hw|exact HU|]. rewrite Ho, Hcat. reflexivity.
+  Qed.
+
+  Lemma build_levels_hd : forall f l xs, exists up, build_levels f l xs = chunk_level l xs :: up.
+  Proof.
+    intros [|f] l xs; cbn [Model.build_levels]; destruct (chunk_level l xs) as [|c [|c' cs']]; eexists; reflexivity.
+  Qed.
+
+  Lemma build_wf : forall f l xs,
+    is_tree item (build_levels f l xs) = true -> wf l (build_levels f l xs).
+  Proof.
+    induction f as [|f IH]; intros l xs Ht; cbn [Model.build_levels] in *;
+      pose proof (chunk_level_canon l xs) as Hc;
+      destruct (chunk_level l xs) as [|c [|c' cs']] eqn:E; cbn [wf].
+    - split; [exact Logic.I|cbn; lia].
+    - split; [exact Hc|cbn; lia].
+    - cbn in Ht. discriminate.
+    - split; [exact Logic.I|cbn; lia].
+    - split; [exact Hc|cbn; lia].
+    - destruct (build_levels_hd f (S l) (map (summ l) (c :: c' :: cs'))) as [up Hup].
+      assert (Ht' : is_tree item (build_levels f (S l) (map (summ l) (c :: c' :: cs'))) = true).
+      { rewrite Hup in *. exact Ht. }
+      specialize (IH _ _ Ht'). rewrite Hup in *.
+      split; [exact Hc|]. split; [cbn; lia|]. split; [apply chunk_level_concat|exact IH].
+  Qed.
+
+  (* ---------------- leaf level: sorted key edits ---------------- *)
+  Variable key_of : item -> N.
+  Variable item_eqb : item -> item -> bool.
+  Notation merge_ops := (Model.merge_ops item key_of item_eqb).
+  Notation cops_of_edits := (Model.cops_of_edits item key_of item_eqb).
+  Notation span_le := (Model.span_le item key_of).
+  Notation last_key := (Model.last_key item key_of).
+  Notation ekey := (Model.ekey item key_of).
+  Notation apply_edits := (Model.apply_edits item key_of item_eqb).
+  Notation apply_mutations := (Model.apply_mutations item boundary fits summ key_of item_eqb).
+  Notation edit := (Model.edit item).
+
+  Definition ins (e : edit) : list (op item) := match e with Put y => [I y] | Del _ => [] end.
+  Definition hit (e : edit) (x : item) : list (op item) :=
+    match e with Put y => if item_eqb x y then [K x] else [D x; I y] | Del _ => [D x] end.
+
+  Lemma merge_ops_nil : forall xs, merge_ops [] xs = map K xs.
+  Proof. intros [|x xs]; reflexivity. Qed.
+  Lemma merge_ops_e_nil : forall e es, merge_ops (e :: es) [] = ins e ++ merge_ops es [].
+  Proof. reflexivity. Qed.
+  Lemma merge_ops_cons : forall e es x xs,
+    merge_ops (e :: es) (x :: xs) =
+    if (key_of x <? ekey e)%N then K x :: merge_ops (e :: es) xs
+    else if (key_of x =? ekey e)%N then hit e x ++ merge_ops es xs
+    else ins e ++ merge_ops es (x :: xs).
+  Proof. reflexivity. Qed.
+
+  Lemma old_of_mapK : forall xs : list item, old_of (map K xs) = xs.
+  Proof. induction xs as [|x xs IH]; [reflexivity|]. cbn [map]. change (old_of (K x :: ?r)) with (x :: old_of r). rewrite IH. reflexivity. Qed.
+  Lemma new_of_mapK : forall xs : list item, new_of (map K xs) = xs.
+  Proof. induction xs as [|x xs IH]; [reflexivity|]. cbn [map]. change (new_of (K x :: ?r)) with (x :: new_of r). rewrite IH. reflexivity. Qed.
+  Lemma old_of_insE : forall e, old_of (ins e) = [].
+  Proof. intros [y|k]; reflexivity. Qed.
+  Lemma old_of_hit : forall e x, old_of (hit e x) = [x].
+  Proof. intros [y|k] x; cbn [hit]; [destruct (item_eqb x y)|]; reflexivity. Qed.
+
+  Lemma merge_ops_old : forall es xs, old_of (merge_ops es xs) = xs.
+  Proof.
+    induction es as [|e es IHe]; intro xs.
+    - rewrite merge_ops_nil. apply old_of_mapK.
+    - induction xs as [|x xs IHx].
+      + rewrite merge_ops_e_nil, old_of_app, old_of_insE, IHe. reflexivity.
+      + rewrite merge_ops_cons. destruct (key_of x <? ekey e)%N; [|destruct (key_of x =? ekey e)%N].
+        * change (old_of (K x :: ?r)) with (x :: old_of r). rewrite IHx. reflexivity.
+        * rewrite old_of_app, old_of_hit, IHe. reflexivity.
+        * rewrite old_of_app, old_of_insE, IHe. reflexivity.
+  Qed.
+
+  Lemma cops_old : forall cs es, cs <> [] -> map old_of (cops_of_edits cs es) = cs.
+  Proof.
+    induction cs as [|c cs IH]; intros es Hne; [congruence|]. cbn [Model.cops_of_edits].
+    destruct cs as [|c' cs'].
+    - cbn [map]. rewrite merge_ops_old. reflexivity.
+    - destruct (span_le (last_key c) es) as [e1 e2]. cbn [map]. rewrite merge_ops_old. f_equal.
+      apply IH. discriminate.
+  Qed.
+
+  (* strictly increasing keys *)
+  Fixpoint inc (ks : list N) : Prop :=
+    match ks with
+    | [] => True
+    | k :: ks' => Forall (N.lt k) ks' /\ inc ks'
+    end.
+
+  Lemma merge_split : forall k e2 rest e1 c,
+    Forall (fun e => (ekey e <= k)%N) e1 -> Forall (fun x => (key_of x <= k)%N) c ->
+    Forall (fun e => (k < ekey e)%N) e2 -> Forall (fun x => (k < key_of x)%N) rest ->
+    merge_ops (e1 ++ e2) (c ++ rest) = merge_ops e1 c ++ merge_ops e2 rest.
+  Proof.
+    intros k e2 rest. induction e1 as [|e e1 IHe]; intro c; induction c as [|x c IHc]; intros H1 Hc H2 Hr.
+    - cbn [app]. rewrite merge_ops_nil. reflexivity.
+    - cbn [app]. inversion Hc as [|? ? Hx Hc']; subst. rewrite merge_ops_nil. cbn [map app].
+      destruct e2 as [|e e2'].
+      + rewrite !merge_ops_nil. cbn [map]. rewrite map_app. reflexivity.
+      + inversion H2 as [|? ? He H2']; subst. rewrite merge_ops_cons.
+        rewrite (proj2 (N.ltb_lt _ _)) by lia.
+        specialize (IHc H1 Hc' H2 Hr). cbn [app] in IHc. rewrite IHc, merge_ops_nil. reflexivity.
+    - cbn [app]. inversion H1 as [|? ? He H1']; subst. rewrite merge_ops_e_nil.
+      destruct rest as [|y rest'].
+      + rewrite merge_ops_e_nil. specialize (IHe [] H1' Hc H2 Hr). cbn [app] in IHe. rewrite IHe.
+        rewrite app_assoc. reflexivity.
+      + inversion Hr as [|? ? Hy Hr']; subst. rewrite merge_ops_cons.
+        rewrite (proj2 (N.ltb_ge _ _)) by lia. rewrite (proj2 (N.eqb_neq _ _)) by lia.
+        specialize (IHe [] H1' Hc H2 Hr). cbn [app] in IHe. rewrite IHe, app_assoc. reflexivity.
+    - inversion H1 as [|? ? He H1']; inversion Hc as [|? ? Hx Hc']; subst.
+      change ((e :: e1) ++ e2) with (e :: (e1 ++ e2)). change ((x :: c) ++ rest) with (x :: (c ++ rest)).
+      rewrite !merge_ops_cons.
+      destruct (key_of x <? ekey e)%N; [|destruct (key_of x =? ekey e)%N].
+      + specialize (IHc H1 Hc' H2 Hr). change ((e :: e1) ++ e2) with (e :: (e1 ++ e2)) in IHc. rewrite IHc. reflexivity.
+      + rewrite (IHe c H1' Hc' H2 Hr), app_assoc. reflexivity.
+      + specialize (IHe (x :: c) H1' Hc H2 Hr). change ((x :: c) ++ rest) with (x :: (c ++ rest)) in IHe.
+        rewrite IHe, app_assoc. reflexivity.
+  Qed.
+
+  Lemma span_le_spec : forall k es e1 e2,
+    span_le k es = (e1, e2) -> inc (map ekey es) ->
+    es = e1 ++ e2 /\ Forall (fun e => (ekey e <= k)%N) e1 /\ Forall (fun e => (k < ekey e)%N) e2 /\ inc (map ekey e2).
+  Proof.
+    intros k es; induction es as [|e es IH]; intros e1 e2 H Hi; cbn [Model.span_le] in H.
+    - inversion H; subst. repeat split; constructor.
+    - destruct (ekey e <=? k)%N eqn:E.
+      + destruct (span_le k es) as [a b] eqn:Es. inversion H; subst; clear H.
+        destruct Hi as [_ Hi]. destruct (IH _ _ eq_refl Hi) as (-> & Ha & Hb & Hib).
+        apply N.leb_le in E. repeat split; auto.
+      + inversion H; subst; clear H. apply N.leb_gt in E. destruct Hi as [Hf Hi].
+        split; [reflexivity|]. split; [constructor|]. split; [|split; assumption].
+        constructor; [exact E|]. cbn [map] in *. rewrite Forall_map in Hf.
+        eapply Forall_impl; [|exact Hf]. intros a Ha. cbn in Ha. lia.
+  Qed.
+
+  Lemma last_key_cons : forall x y c, last_key (x :: y :: c) = last_key (y :: c).
+  Proof.
+    intros x y c. unfold Model.last_key. cbn [rev]. destruct (rev c ++ [y]) eqn:E.
+    - destruct (rev c); discriminate.
+    - reflexivity.
+  Qed.
+
+  Lemma chunk_key_bounds : forall c rest, c <> [] -> inc (map key_of (c ++ rest)) ->
+    Forall (fun x => (key_of x <= last_key c)%N) c /\
+    Forall (fun x => (last_key c < key_of x)%N) rest /\ inc (map key_of rest).
+  Proof.
+    induction c as [|x c IH]; intros rest Hne Hi; [congruence|].
+    destruct c as [|y c'].
+    - cbn [app map inc] in Hi. destruct Hi as [Hf Hi]. unfold Model.last_key. cbn [rev app].
+      split; [constructor; [lia|constructor]|]. split; [|exact Hi]. rewrite Forall_map in Hf. exact Hf.
+    - rewrite last_key_cons. cbn [app map inc] in Hi. destruct Hi as [Hf Hi].
+      destruct (IH rest ltac:(discriminate) Hi) as (Hc & Hr & Hir).
+      split; [|split; assumption]. constructor; [|exact Hc].
+      inversion Hf as [|? ? Hxy _]; subst. inversion Hc as [|? ? Hy _]; subst. lia.
+  Qed.
+
+  (* the per-chunk attribution of the edits is the sorted-dictionary update *)
+  Lemma cops_new : forall cs es,
+    Forall (fun c => c <> []) cs -> inc (map key_of (concat cs)) -> inc (map ekey es) ->
+    flat_map new_of (cops_of_edits cs es) = apply_edits es (concat cs).
+  Proof.
+    unfold Model.apply_edits.
+    induction cs as [|c cs IH]; intros es Hne Hi He; cbn [Model.cops_of_edits].
+    - destruct es; [reflexivity|]. cbn [flat_map concat]. rewrite app_nil_r. reflexivity.
+    - destruct cs as [|c' cs'].
+      + cbn [flat_map concat]. rewrite !app_nil_r. reflexivity.
+      + destruct (span_le (last_key c) es) as [e1 e2] eqn:Es.
+        destruct (span_le_spec _ _ _ _ Es He) as (-> & H1 & H2 & Hi2).
+        inversion Hne as [|? ? Hc Hne']; subst.
+        change (concat (c :: c' :: cs')) with (c ++ concat (c' :: cs')) in *.
+        destruct (chunk_key_bounds _ _ Hc Hi) as (Hcb & Hrb & Hir).
+        cbn [flat_map]. rewrite (IH e2 Hne' Hir Hi2).
+        rewrite (merge_split _ _ _ _ _ H1 Hcb H2 Hrb), new_of_app. reflexivity.
+  Qed.
+
+  Lemma feed_nonempty : forall l xs run cs r, feed l run xs = (cs, r) -> Forall (fun c => c <> []) cs.
+  Proof.
+    intros l xs; induction xs as [|x xs IH]; intros run cs r H; cbn [Model.feed] in H.
+    - inversion H; constructor.
+    - rewrite append1_nf in H.
+      destruct (boundary l run x && negb (degenerate item l (run ++ [x]))).
+      + destruct (feed l [] xs) as [cs' r'] eqn:E. inversion H; subst. cbn [app]. constructor; [|eapply IH; eauto].
+        destruct run; discriminate.
+      + destruct (feed l (run ++ [x]) xs) as [cs' r'] eqn:E. inversion H; subst. cbn [app]. eapply IH; eauto.
+  Qed.
+
+  Lemma chunk_level_nonempty : forall l xs, Forall (fun c => c <> []) (chunk_level l xs).
+  Proof.
+    intros l xs. unfold Model.chunk_level, Model.chunk_from. destruct (feed l [] xs) as [cs r] eqn:E.
+    apply Forall_app. split; [eapply feed_nonempty; eauto|].
+    unfold Model.finish. destruct r; cbn [is_nil]; constructor; [discriminate|constructor].
+  Qed.
+
+  (* mutate_canonical, script form: no sortedness needed *)
+  Theorem mutate_canonical_script : forall xs es,
+    is_tree item (build xs) = true ->
+    apply_mutations (build xs) es =
+    build (flat_map new_of (cops_of_edits (chunk_level 0 xs) es)).
+  Proof.
+    intros xs es Ht. unfold Model.apply_mutations.
+    destruct (build_levels_hd (length xs) 0 xs) as [up Hup].
+    assert (Hb : build xs = chunk_level 0 xs :: up) by exact Hup.
+    cbv zeta. rewrite Hb at 1 2 3. cbn [hd].
+    rewrite apply_levels_spec; [reflexivity|]. cbn [tl].
+    destruct (chunk_level 0 xs) as [|c cs] eqn:E.
+    - assert (up = []).
+      { unfold Model.build in Hb. destruct (length xs); cbn [Model.build_levels] in Hb; rewrite E in Hb; inversion Hb; reflexivity. }
+      subst up. cbn [Model.cops_of_edits]. destruct es as [|e es].
+      + cbn [map wf canon]. split; [exact Logic.I|cbn; lia].
+      + cbn [map wf]. rewrite merge_ops_old. split; [reflexivity|cbn; lia].
+    - rewrite cops_old by discriminate. rewrite <- Hb. apply build_wf. exact Ht.
+  Qed.
+
+
+  (* ---------------- the fuel of [build] is always enough ---------------- *)
+  Lemma len_concat_ge : forall (cs : list chunk) n,
+    Forall (fun c => (n <= length c)%nat) cs -> (n * length cs <= length (concat cs))%nat.
+  Proof.
+    induction cs as [|c cs IH]; intros n H; cbn [concat length]; [lia|].
+    inversion H; subst. rewrite app_length. specialize (IH n H3). lia.
+  Qed.
+
+  Lemma feed_min2 : forall l xs run cs r,
+    feed (S l) run xs = (cs, r) -> Forall (fun c => (2 <= length c)%nat) cs.
+  Proof.
+    intros l xs; induction xs as [|x xs IH]; intros run cs r H; cbn [Model.feed] in H.
+    - inversion H; constructor.
+    - rewrite append1_nf in H.
+      destruct (boundary (S l) run x && negb (degenerate item (S l) (run ++ [x]))) eqn:Eb.
+      + destruct (feed (S l) [] xs) as [cs' r'] eqn:E. inversion H; subst. cbn [app]. constructor; [|eapply IH; eauto].
+        apply andb_true_iff in Eb as [_ Eb]. apply negb_true_iff in Eb.
+        destruct run as [|a [|b run']]; cbn in *; try discriminate; rewrite ?app_length; cbn; lia.
+      + destruct (feed (S l) (run ++ [x]) xs) as [cs' r'] eqn:E. inversion H; subst. cbn [app]. eapply IH; eauto.
+  Qed.
+
+  Lemma chunk_level_len : forall l xs, (length (chunk_level l xs) <= length xs)%nat.
+  Proof.
+    intros l xs. unfold Model.chunk_level, Model.chunk_from. destruct (feed l [] xs) as [cs r] eqn:E.
+    pose proof (feed_concat _ _ _ _ _ E) as Hc. cbn [app] in Hc.
+    pose proof (feed_nonempty _ _ _ _ _ E) as Hn.
+    assert (Hn1 : Forall (fun c : chunk => (1 <= length c)%nat) cs).
+    { eapply Forall_impl; [|exact Hn]. intros [|a c] Ha; [congruence|cbn; lia]. }
+    pose proof (len_concat_ge _ _ Hn1) as Hl.
+    rewrite <- Hc, !app_length. unfold Model.finish. unfold Model.chunk in *. destruct r; cbn [is_nil length]; lia.
+  Qed.
+
+  Lemma chunk_level_shrinks : forall l xs, (2 <= length xs)%nat ->
+    (length (chunk_level (S l) xs) < length xs)%nat.
+  Proof.
+    intros l xs H2. unfold Model.chunk_level, Model.chunk_from. destruct (feed (S l) [] xs) as [cs r] eqn:E.
+    pose proof (feed_concat _ _ _ _ _ E) as Hc. cbn [app] in Hc.
+    pose proof (len_concat_ge _ _ (feed_min2 _ _ _ _ _ E)) as Hl.
+    rewrite <- Hc in *. rewrite !app_length in *. unfold Model.finish. unfold Model.chunk in *. destruct r; cbn [is_nil length] in *; lia.
+  Qed.
+
+  Lemma build_levels_is_tree : forall f l xs,
+    (match l with O => length xs <= f | S _ => length xs <= S f end)%nat ->
+    is_tree item (build_levels f l xs) = true.
+  Proof.
+    induction f as [|f IH]; intros l xs Hf; cbn [Model.build_levels];
+      pose proof (chunk_level_len l xs) as Hlen;
+      destruct (chunk_level l xs) as [|c [|c' cs']] eqn:E; try reflexivity.
+    - cbn [length] in Hlen. destruct l; lia.
+    - destruct (build_levels_hd f (S l) (map (summ l) (c :: c' :: cs'))) as [up Hup].
+      assert (Hi : is_tree item (build_levels f (S l) (map (summ l) (c :: c' :: cs'))) = true).
+      { apply IH. rewrite map_length. unfold Model.chunk in *. cbn [length] in *. destruct l as [|l'].
+        - lia.
+        - pose proof (chunk_level_shrinks l' xs) as Hs. rewrite E in Hs. unfold Model.chunk in *. cbn [length] in *. lia. }
+      rewrite Hup in *. exact Hi.
+  Qed.
+
+  Theorem build_is_tree : forall xs, is_tree item (build xs) = true.
+  Proof. intro xs. unfold Model.build. apply build_levels_is_tree. lia. Qed.
+
+  (* mutate_canonical (DESIGN Appendix A), full strength over all levels: for every
+     sorted item list and every sorted edit list, applying the edits incrementally
+     to the tree of xs = building the tree of the edited list — every chunk of
+     every level, hence the root. *)
+  Theorem mutate_canonical : forall xs es,
+    inc (map key_of xs) -> inc (map ekey es) ->
+    apply_mutations (build xs) es = build (apply_edits es xs).
+  Proof.
+    intros xs es Hx He. rewrite mutate_canonical_script by apply build_is_tree.
+    rewrite cops_new; [rewrite chunk_level_concat; reflexivity|apply chunk_level_nonempty| |exact He].
+    rewrite chunk_level_concat. exact Hx.
+  Qed.
+
+  (* history independence, pairwise: different starting contents, different edit
+     batches, same resulting content => the same tree *)
+  Corollary history_independent : forall xs1 xs2 es1 es2,
+    inc (map key_of xs1) -> inc (map key_of xs2) -> inc (map ekey es1) -> inc (map ekey es2) ->
+    apply_edits es1 xs1 = apply_edits es2 xs2 ->
+    apply_mutations (build xs1) es1 = apply_mutations (build xs2) es2.
+  Proof. intros. rewrite !mutate_canonical by assumption. congruence. Qed.
+
+  (* equal trees have equal roots and equal chunk sets: with the chunk address a
+     function of the chunk (summ), nothing more is needed for "same root hash" *)
+  Corollary same_tree_same_root : forall t1 t2 : list (list chunk),
+    t1 = t2 -> root_item item summ t1 = root_item item summ t2 /\ all_chunks item t1 = all_chunks item t2.
+  Proof. intros; subst; split; reflexivity. Qed.
+
+  (* ---------------- the edited list stays sorted ---------------- *)
+  Notation keys := (map key_of).
+
+  Lemma new_of_hit_keys : forall e x, (key_of x = ekey e) ->
+    Forall (fun k => k = ekey e) (keys (new_of (hit e x))).
+  Proof.
+    intros [y|k] x H; cbn [hit].
+    - destruct (item_eqb x y); cbn; repeat constructor; auto.
+    - cbn. constructor.
+  Qed.
+  Lemma new_of_ins_keys : forall e, Forall (fun k => k = ekey e) (keys (new_of (ins e))).
+  Proof. intros [y|k]; cbn; repeat constructor. Qed.
+
+  Lemma lt_trans_all : forall k k' ks, (k <= k')%N -> Forall (N.lt k') ks -> Forall (N.lt k) ks.
+  Proof. intros k k' ks H Hf. eapply Forall_impl; [|exact Hf]. intros a Ha. cbn in *. lia. Qed.
+
+  Lemma merge_lb : forall k es xs,
+    Forall (N.lt k) (keys xs) -> Forall (N.lt k) (map ekey es) ->
+    Forall (N.lt k) (keys (new_of (merge_ops es xs))).
+  Proof.
+    intros k es; induction es as [|e es IHe]; intro xs.
+    - intros Hx _. rewrite merge_ops_nil, new_of_mapK. exact Hx.
+    - induction xs as [|x xs IHx]; intros Hx He; inversion He as [|? ? Hk He']; subst.
+      + rewrite merge_ops_e_nil, new_of_app, map_app. apply Forall_app. split; [|apply IHe; [constructor|exact He']].
+        eapply Forall_impl; [|apply new_of_ins_keys]. intros a ->. exact Hk.
+      + inversion Hx as [|? ? Hkx Hx']; subst. rewrite merge_ops_cons.
+        destruct (key_of x <? ekey e)%N; [|destruct (key_of x =? ekey e)%N eqn:Eq].
+        * change (new_of (K x :: ?r)) with (x :: new_of r). cbn [map]. constructor; [exact Hkx|]. apply IHx; assumption.
+        * rewrite new_of_app, map_app. apply Forall_app. split; [|apply IHe; assumption].
+          apply N.eqb_eq in Eq. eapply Forall_impl; [|apply (new_of_hit_keys e x Eq)]. intros a ->. exact Hk.
+        * rewrite new_of_app, map_app. apply Forall_app. split; [|apply IHe; assumption].
+          eapply Forall_impl; [|apply new_of_ins_keys]. intros a ->. exact Hk.
+  Qed.
+
+  Lemma inc_single_prefix : forall k pre rest,
+    Forall (fun a => a = k) pre -> (length pre <= 1)%nat -> Forall (N.lt k) rest -> inc rest -> inc (pre ++ rest).
+  Proof.
+    intros k [|a [|b pre]] rest Hp Hl Hr Hi; cbn [app inc]; [exact Hi| |cbn in Hl; lia].
+    inversion Hp; subst. split; assumption.
+  Qed.
+
+  Lemma new_of_hit_len : forall e x, (length (new_of (hit e x)) <= 1)%nat.
+  Proof. intros [y|k] x; cbn [hit]; [destruct (item_eqb x y)|]; cbn; lia. Qed.
+  Lemma new_of_ins_len : forall e, (length (new_of (ins e)) <= 1)%nat.
+  Proof. intros [y|k]; cbn; lia. Qed.
+
+  Lemma merge_inc : forall es xs, inc (map ekey es) -> inc (keys xs) -> inc (keys (apply_edits es xs)).
+  Proof.
+    unfold Model.apply_edits.
+    induction es as [|e es IHe]; intro xs.
+    - intros _ Hx. rewrite merge_ops_nil, new_of_mapK. exact Hx.
+    - induction xs as [|x xs IHx]; intros He Hx; destruct He as [Hef Hei].
+      + rewrite merge_ops_e_nil, new_of_app, map_app.
+        apply (inc_single_prefix (ekey e)); [apply new_of_ins_keys|rewrite map_length; apply new_of_ins_len| |apply IHe; [exact Hei|exact Logic.I]].
+        apply merge_lb; [constructor|exact Hef].
+      + destruct Hx as [Hxf Hxi]. rewrite merge_ops_cons.
+        destruct (key_of x <? ekey e)%N eqn:E1; [|destruct (key_of x =? ekey e)%N eqn:E2].
+        * apply N.ltb_lt in E1. change (new_of (K x :: ?r)) with (x :: new_of r). cbn [map inc]. split.
+          -- apply merge_lb; [exact Hxf|]. cbn [map]. constructor; [exact E1|]. eapply lt_trans_all; [|exact Hef]. lia.
+          -- apply IHx; [split; assumption|exact Hxi].
+        * apply N.eqb_eq in E2. rewrite new_of_app, map_app.
+          apply (inc_single_prefix (ekey e)); [apply new_of_hit_keys; exact E2|rewrite map_length; apply new_of_hit_len| |apply IHe; assumption].
+          apply merge_lb; [rewrite <- E2; exact Hxf|exact Hef].
+        * apply N.ltb_ge in E1. apply N.eqb_neq in E2. rewrite new_of_app, map_app.
+          apply (inc_single_prefix (ekey e)); [apply new_of_ins_keys|rewrite map_length; apply new_of_ins_len| |apply IHe; [exact Hei|split; assumption]].
+          apply merge_lb; [|exact Hef]. cbn [map]. constructor; [lia|]. eapply lt_trans_all; [|exact Hxf]. lia.
+  Qed.
+
+  (* whole histories: any sequence of sorted edit batches, from any sorted start *)
+  Theorem history_canonical : forall (h : list (list edit)) xs,
+    Forall (fun es => inc (map ekey es)) h -> inc (keys xs) ->
+    fold_left apply_mutations h (build xs) = build (fold_left (fun ys es => apply_edits es ys) h xs).
+  Proof.
+    induction h as [|es h IH]; intros xs Hh Hx; [reflexivity|].
+    inversion Hh; subst. cbn [fold_left].
+    rewrite mutate_canonical; [|exact Hx|assumption].
+    apply IH; [assumption|apply merge_inc; assumption].
+  Qed.
+
+  (* history_independent as in the design: two histories from the empty tree that
+     end in the same content give the same tree (all chunks of all levels, root) *)
+  Corollary history_independent_fold : forall h1 h2 : list (list edit),
+    Forall (fun es => inc (map ekey es)) h1 -> Forall (fun es => inc (map ekey es)) h2 ->
+    fold_left (fun ys es => apply_edits es ys) h1 [] = fold_left (fun ys es => apply_edits es ys) h2 [] ->
+    fold_left apply_mutations h1 (build []) = fold_left apply_mutations h2 (build []).
+  Proof.
+    intros h1 h2 H1 H2 E. rewrite !history_canonical by (assumption || exact Logic.I). rewrite E. reflexivity.
   Qed.
 
 End Proofs.
